@@ -71,6 +71,10 @@ impl CompilerTrait for Rec {
     fn reduce_op(&self, op: Self::CompilerOp) -> Result<Self::Expression, tx3_tir::reduce::Error> {
         self.inner.reduce_op(op)
     }
+
+    fn reset(&mut self) {
+        self.inner.reset()
+    }
 }
 
 #[derive(Clone, Debug)]
@@ -112,7 +116,7 @@ pub fn lower_src(src: &str, name: &str) -> Option<tir::Tx> {
 
 /// templates using `fees` in outputs and/or min_amount, with and without min_utxo; `k` extra outputs
 pub fn template_src(kind: u64, extra_outputs: usize) -> String {
-    let mut s = String::from("party Sender;\nparty Receiver;\n\ntx t(quantity: Int) {\n");
+    let mut s = String::from("party Sender;\nparty Receiver;\n\ntype Blob {\n    data: Bytes,\n}\n\ntx t(quantity: Int) {\n");
     match kind {
         0 => {
             s.push_str("    input source {\n        from: Sender,\n        min_amount: Ada(quantity) + fees,\n    }\n");
@@ -132,6 +136,19 @@ pub fn template_src(kind: u64, extra_outputs: usize) -> String {
             // fees only in the threshold: the change does not depend on them
             s.push_str("    input source {\n        from: Sender,\n        min_amount: Ada(quantity) + fees,\n    }\n");
             s.push_str("    output {\n        to: Receiver,\n        amount: Ada(quantity),\n    }\n");
+        }
+        6 => {
+            // the threshold itself reads min_utxo: the first pass asks the store for an amount
+            // sized from whatever body the instance holds
+            s.push_str("    input source {\n        from: Sender,\n        min_amount: fees + min_utxo(target) + min_utxo(change),\n    }\n");
+            s.push_str("    output target {\n        to: Receiver,\n        amount: min_utxo(target),\n    }\n");
+            s.push_str("    output change {\n        to: Sender,\n        amount: source - min_utxo(target) - fees,\n    }\n");
+        }
+        7 => {
+            // a first output that is large on the wire (a datum of 3000 bytes)
+            s.push_str("    input source {\n        from: Sender,\n        min_amount: Ada(quantity) + fees,\n    }\n");
+            s.push_str(&format!("    output {{\n        to: Receiver,\n        amount: Ada(quantity),\n        datum: Blob {{ data: 0x{}, }},\n    }}\n", "5a".repeat(3000)));
+            s.push_str("    output {\n        to: Sender,\n        amount: source - Ada(quantity) - fees,\n    }\n");
         }
         5 => {
             // min_utxo of the second output: an index that a one-output body does not have
@@ -325,7 +342,7 @@ pub fn run_c20(ctx: &mut Ctx) {
     let mut distinct = HashSet::new();
     // template pool: kinds x extra outputs (0..5 outputs overall)
     let mut pool: Vec<(u64, usize, tir::Tx)> = vec![];
-    for kind in 0..6u64 {
+    for kind in 0..8u64 {
         for extra in 0..4usize {
             if let Some(t) = lower_src(&template_src(kind, extra), "t") {
                 pool.push((kind, extra, t));
@@ -351,12 +368,14 @@ pub fn run_c20(ctx: &mut Ctx) {
         // targets are biased towards min_utxo templates
         let (tk, te, target) = loop {
             let c = r.pick(&pool).clone();
-            if matches!(c.0, 1 | 4 | 5) || r.chance(1, 3) {
+            if matches!(c.0, 1 | 4 | 5 | 6) || r.chance(1, 3) {
                 break c;
             }
         };
         let q = *r.pick(&[1_000_000i128, 2_000_000, 65_536]);
         let tamt = if r.chance(1, 8) { 1000 } else { q + 2_000_000 + r.below(5_000_000) as i128 + *r.pick(&[0i128, 65_536, 4_294_967_296]) };
+        // a wallet that just covers a threshold sized from a small body (and not one sized from a large one)
+        let tamt = if tk == 6 && r.chance(1, 2) { 2_500_000 + r.below(1_500_000) as i128 } else { tamt };
         let tstore = sender_store(&mut r, &[tamt]);
         // fresh instance
         let mut fresh = new_rec(&pp);
@@ -374,7 +393,7 @@ pub fn run_c20(ctx: &mut Ctx) {
         let u = resolve_with(&mut used, &target, &std_args(q), &tstore, 3);
         let passes_used = used.log.len() - before;
         let same = f.kind == u.kind && f.payload == u.payload && f.hash == u.hash && f.fee == u.fee && (f.kind != 1 || f.err == u.err);
-        let uses_min_utxo = matches!(tk, 1 | 4 | 5);
+        let uses_min_utxo = matches!(tk, 1 | 4 | 5 | 6);
         *hist.entry(format!("history_len_{}", hlen)).or_default() += 1;
         *hist.entry(format!("target_min_utxo_{}", uses_min_utxo)).or_default() += 1;
         *hist.entry(format!("fresh_kind_{}", f.kind)).or_default() += 1;
